@@ -702,6 +702,43 @@ let cmd_evd (args : string list) : string =
          hex_of_n o ^ "[" ^ String.concat "|" (List.map (fun (t, path) -> hex_of_n t ^ ":" ^ String.concat "." (List.map (fun (isk, v) -> (if isk then "k" else "i") ^ hex_of_n v) path)) es) ^ "]") calls)) ^ " cpt=" ^ cpt)
   | _ -> "err badcmd"
 
+(* ---------- local edits of an array-like sequence through the cursor (Crdt/BlockIter.v: Array::insert / remove_range) ---------- *)
+let cmd_bit (args : string list) : string =
+  let seq_of full seq = let fb = bytes_of_hex full in
+    (match decode_update_v1 (fuel_for fb) fb with
+     | Ok (u, _) ->
+       let st = wbf_resolve_parents (wbf_store_of u) in
+       let find (i : id) = List.find_map (fun (c, bs) -> if c <> i.cl then None else List.find_map (fun (b, d) -> match b with BItem (j, _, _, _, _, _) when j.ck = i.ck -> Some { yib_b = b; yib_del = d } | _ -> None) bs) st in
+       let s = List.map find (gcb_parse_ids seq) in
+       if List.exists (fun x -> x = None) s then None else Some (List.filter_map (fun x -> x) s)
+     | _ -> None) in
+  let poid = function None -> "-" | Some (i : id) -> print_ck (i.cl, i.ck) in
+  let show (br : bit_branch) = String.concat "," (List.map (fun (d : ditem) -> print_ck (d.d_op.oid.cl, d.d_op.oid.ck) ^ (if d.d_del then "-" else "+") ^ poid d.d_op.oorigin ^ "/" ^ poid d.d_op.ororigin) (yib_expand br.bit_seq)) ^ " clen=" ^ hex_of_n br.bit_clen in
+  match args with
+  | ["ins"; full; seq; clen; index; upd] ->
+    let ub = bytes_of_hex upd in
+    (match seq_of full seq, decode_update_v1 (fuel_for ub) ub with
+     | Some s, Ok (inc, _) ->
+       (match List.concat_map snd inc.u_blocks with
+        | [BItem (i, _, _, p, _, c)] ->
+          let br = { bit_seq = s; bit_clen = n_of_hex clen } in
+          let hyp = " ok=" ^ b01 (bit_ok br) ^ " ncd=" ^ b01 (bit_noncountable_deleted s) in
+          (match bit_array_insert br (n_of_hex index) i p c with
+           | Yib_ok br' -> "ok " ^ show br' ^ hyp
+           | Yib_fail t -> "fail " ^ hex_of_n t ^ hyp)
+        | _ -> "skip not-exactly-one-item")
+     | _ -> "skip sequence-block-not-in-the-full-state")
+  | ["rem"; full; seq; clen; index; len] ->
+    (match seq_of full seq with
+     | Some s ->
+       let br = { bit_seq = s; bit_clen = n_of_hex clen } in
+       let hyp = " ok=" ^ b01 (bit_ok br) ^ " ncd=" ^ b01 (bit_noncountable_deleted s) in
+       (match bit_array_remove_range br (n_of_hex index) (n_of_hex len) with
+        | Yib_ok br' -> "ok " ^ show br' ^ hyp
+        | Yib_fail t -> "fail " ^ hex_of_n t ^ hyp)
+     | None -> "skip sequence-block-not-in-the-full-state")
+  | _ -> "err badcmd"
+
 (* ---------- codecs ---------- *)
 let print_idm (v : (n * ((n * n) * ((n list * any) option) list) list) list) : string =
   let pa = function None -> "?" | Some (nm, vl) -> rawhex nm ^ "=" ^ print_any vl in
@@ -1031,6 +1068,7 @@ let dispatch (line : string) : string =
   | "GCB" :: args -> cmd_gcb args
   | "YIB" :: args -> cmd_yib args
   | "EVD" :: args -> cmd_evd args
+  | "BIT" :: args -> cmd_bit args
   | "DEC" :: args -> cmd_dec args
   | "ENC" :: args -> cmd_enc args
   | ["PING"] -> "ok pong"
